@@ -16,6 +16,7 @@
 """Utils for min/max based quantization."""
 
 from collections.abc import Sequence
+import dataclasses
 import enum
 from typing import Any, Optional
 import numpy as np
@@ -252,6 +253,18 @@ def _get_tensor_transformation_params_wrapper(
         tensor_quant_config,
         tensor_content=tensor_data,
     )
+  elif isinstance(quant_params, qtyping.UniformQuantParams):
+    # The parameters are shared with another tensor (same scale constraints),
+    # but the quantized data always belongs to this tensor only.
+    quantized_data = None
+    if is_constant:
+      quantized_data = uniform_quantize_tensor.uniform_quantize(
+          tensor_data, quant_params
+      )
+    if quantized_data is not None or quant_params.quantized_data is not None:
+      quant_params = dataclasses.replace(
+          quant_params, quantized_data=quantized_data
+      )
   return get_tensor_transformation_params(
       tensor_name,
       op_info,
